@@ -9,9 +9,7 @@ package utils
 //@ func walkAggregation [C02]
 //@   safe type-assert
 //@   assumed callee-requires utils.includeLabel, utils.guaranteeLabel, utils.excludeLabel
-//@ func parsePromQLFunc [C02]
-//@   safe type-assert
-//@   assumed callee-requires utils.includeLabel, utils.guaranteeLabel, utils.excludeLabel
+// (parsePromQLFunc: see the C04 section below; its contract carries the C02 safety clause too)
 
 // ---------------------------------------------------------------------------------------------
 // C04 / C12: the label-flow transfer functions. A Source describes which labels the series of one result branch
@@ -265,3 +263,18 @@ package utils
 //@   loop 10 invariant 0 <= iter10 && iter10 <= len(r10) && n == old(n)
 //@   at call append#10 assert forall x string :: canHave(r10[iter10-1], x) ==> canHave(s, x)
 //@   at call append#10 assert s.GuaranteedLabels == r10[iter10-1].GuaranteedLabels
+
+// Functions. The selector-derived names are a fresh duplicate-free list; a label-preserving function keeps every
+// label its input could carry; label_replace / label_join make their destination label possible.
+//@ func labelsFromSelectors [C04,C12]
+//@   option elemlinks
+//@   ensures nodup(names) && fresh(names) && modifiesNone(names)
+//@   loop 1 invariant nodup(names) && fresh(names) && modifiesNone(names)
+//@ spec func restricting(f string) bool = f == "absent" || f == "absent_over_time" || f == "days_in_month" || f == "day_of_month" || f == "day_of_week" || f == "day_of_year" ||
+//@      f == "hour" || f == "minute" || f == "month" || f == "year" || f == "pi" || f == "scalar" || f == "time" || f == "vector"
+//@ func parsePromQLFunc [C02,C04]
+//@   safe type-assert
+//@   option elemlinks split32
+//@   requires wfS(s) && n != nil && n.Func != nil
+//@   loop 1 invariant wfS(s) && n == old(n)
+//@   ensures !restricting(n.Func.Name) ==> (forall x string :: canHave(s, x) ==> canHave(result, x))
